@@ -21,7 +21,7 @@ ASSUMPTIONS = ['batch vs stream: max-abs difference <= 1e-12 (a batch constructo
                'the streaming instance is created without data but with the same effective configuration and started from the first row of the batch run',
                'Madgwick\'s default gain depends on whether magnetometer data was given to the constructor (documented default); both runs get the same explicit gain',
                'bounded: histories of length 5 over 3 sample symbols, 2 live instances x 3 updates + 1 construction event']
-REQUIRED_CLASSES = ['dt-per-call', 'stream:carriers', 'batch=stream', 'repeat', 'schedule', 'shared-weights', 'param-pair']
+REQUIRED_CLASSES = ['record-dtypes', 'dt-per-call', 'stream:carriers', 'batch=stream', 'repeat', 'schedule', 'shared-weights', 'param-pair']
 
 S = [  # (gyr, acc, mag) sample symbols
     (np.array([0.01, -0.02, 0.03]), np.array([0.1, 0.2, 9.7]), np.array([22.0, 1.0, 40.0])),
@@ -141,6 +141,50 @@ def job_batch_stream(ctx, key):
                         continue
                     ctx.close(np.array(rows3), b1, 1e-12, f'{key}: batch = stream (a-priori handed back {carrier})', kk)
                     ctx.cls('stream:carriers')
+            if hn in ('long#0', 'word=01210'):
+                # (a) two runs started from ONE caller-owned Quaternion object: the object is left as it was, the second run equals the first
+                try:
+                    from ahrs import Quaternion as _Qn2
+                    q_start = _Qn2(b1[0].copy(), versor=False); q_keep = np.asarray(q_start, float).copy()
+                    runs = []
+                    for _rep in range(2):
+                        inst4 = r.fresh(cfg); q = q_start; rows4 = []
+                        for t in range(1, len(g)):
+                            q = r.step_fn(inst4, q, g[t].copy(), a[t].copy(), m[t].copy() if r.has_mag else None)
+                            rows4.append(np.array(q, float))
+                        runs.append(np.array(rows4))
+                    ctx.expect(np.array_equal(np.asarray(q_start, float), q_keep), f"{key}: a streaming run leaves the caller's start Quaternion object as it was", kk, np.asarray(q_start, float), q_keep)
+                    ctx.expect(runs[0].tobytes() == runs[1].tobytes(), f'{key}: two streaming runs started from the same Quaternion object are bit-identical', kk, None, 'identical bytes')
+                    ctx.close(runs[0], b1[1:], 1e-12, f'{key}: batch = stream (started from a caller-owned Quaternion object)', kk)
+                except TypeError:
+                    ctx.outcome(('carrier-refused', key, 'start object'))
+                except Exception as ex:
+                    ctx.fail(f'{key}: streaming run raises', kk + ' start object', f'{type(ex).__name__}: {ex}'[:200], 'N attitudes')
+                # (b) the same record held in single precision / as integers (a logger's native types): batch rows are float64 and equal the stream
+                for dtn, conv in (('float32', lambda x: x.astype(np.float32)), ('int64 (milli-units)', lambda x: np.rint(x * 1000.0).astype(np.int64))):
+                    try:
+                        gd, ad, md = conv(g), conv(a), conv(m)
+                        if dtn.startswith('int'):
+                            gd = np.rint(g * 1000.0) / 1000.0            # gyroscope stays float (rates are small numbers)
+                        _seed(r)
+                        inst_b = r.klass()(**r.batch_args(gd, ad, md if r.has_mag else None), **cfg)
+                        bd = np.asarray(r.output(inst_b))
+                    except (TypeError, ValueError):
+                        ctx.outcome(('dtype-record-refused', key, dtn)); continue
+                    except Exception as ex:
+                        ctx.fail(f'{key}: batch run on a {dtn} record raises', kk, f'{type(ex).__name__}: {ex}'[:200], 'N attitudes'); continue
+                    ctx.expect(bd.dtype == np.float64, f'{key}: the attitudes of a batch run are float64 whatever the dtype of the record', kk + f' record dtype={dtn}', str(bd.dtype), 'float64')
+                    try:
+                        inst5 = r.fresh(cfg); q = np.array(bd[0], float); rows5 = [q.copy()]
+                        for t in range(1, len(g)):
+                            q = np.array(r.step_fn(inst5, q, gd[t].copy(), ad[t].copy(), md[t].copy() if r.has_mag else None), float)
+                            rows5.append(q)
+                        ctx.close(np.array(rows5), np.asarray(bd, float), 1e-9, f'{key}: batch = stream on a record held in another dtype', kk + f' record dtype={dtn}')
+                    except (TypeError, ValueError):
+                        ctx.outcome(('dtype-sample-refused', key, dtn))
+                    except Exception as ex:
+                        ctx.fail(f'{key}: streaming run on {dtn} samples raises', kk, f'{type(ex).__name__}: {ex}'[:200], 'N attitudes')
+                ctx.cls('record-dtypes')
             ctx.cls('batch=stream')
             ctx.seen((key, ci, hn))
             ctx.states += len(g)
